@@ -411,7 +411,7 @@ func allSteps() []step {
 		out = append(out, firstLast("First", n), firstLast("Last", n))
 	}
 	out = append(out, lengthStep)
-	for _, p := range [][]string{{"BIRT"}, {"BIRT", "DATE"}, {"NAME"}, {"NOPE"}, {"HUSB"}} {
+	for _, p := range [][]string{{"BIRT"}, {"BIRT", "DATE"}, {"NAME"}, {"NOPE"}, {"HUSB"}, {"_MYTAG"}, {"BIRT", "_MYTAG"}} {
 		out = append(out, tagPathStep(p...))
 	}
 	for _, c := range conditions() {
@@ -557,7 +557,7 @@ func programs(depth int) []program {
 var docTexts = map[string]string{
 	"empty": "",
 	"one":   "0 @I1@ INDI\n1 NAME Ann /Ash/\n1 BIRT\n2 DATE 1 Jan 1850\n",
-	"family": "0 @I1@ INDI\n1 NAME Ann /Ash/\n1 SEX F\n1 BIRT\n2 DATE 1 Jan 1850\n2 PLAC Oldtown\n1 DEAT\n2 DATE 5 May 1900\n1 FAMS @F1@\n" +
+	"family": "0 @I1@ INDI\n1 NAME Ann /Ash/\n1 SEX F\n1 BIRT\n2 DATE 1 Jan 1850\n2 PLAC Oldtown\n2 _MYTAG below birth\n1 DEAT\n2 DATE 5 May 1900\n1 _MYTAG user defined\n1 FAMS @F1@\n" +
 		"0 @I2@ INDI\n1 NAME Bob /Birch/\n1 NAME Robert /Birch/\n1 SEX M\n1 BIRT\n2 DATE 2 Feb 1848\n1 DEAT Y\n1 FAMS @F1@\n" +
 		"0 @I3@ INDI\n1 NAME Cy /Birch/\n1 BIRT\n2 DATE 3 Mar 1875\n1 DEAT\n2 DATE 1950\n1 FAMC @F1@\n0 @F1@ FAM\n1 HUSB @I2@\n1 WIFE @I1@\n1 CHIL @I3@\n",
 	"shared-spouse": "0 @I1@ INDI\n1 NAME Ann /Ash/\n1 BIRT\n2 DATE 1 Jan 1850\n1 DEAT Y\n1 FAMS @F1@\n0 @I2@ INDI\n1 NAME Bob /Birch/\n1 BIRT\n2 DATE 2 Feb 1848\n1 DEAT Y\n1 FAMS @F1@\n1 FAMS @F2@\n" +
@@ -913,7 +913,7 @@ func main() {
 	vlib.Main(&vlib.Check{
 		ID:    "C16",
 		Level: "translation_validation",
-		Rule: "programs: every well-typed query of pipeline depth <=d (3 quick, 4 thorough) from a typed grammar over {Doc, Indi, Fam, role nodes, Name, Date, Node, string, number, bool, object} x list nesting: 34 accessors from a hand-written signature table, First/Last(0..4), Length, NodesWithTagPath (6 tag paths), Only over 7 accessor chains x 6 operators x numeric/text/mixed constants, 3 object constructions; plus variable forms (definition, a variable defined through another variable, unused definition) and Combine(V,V) / Combine(V,V)|Length on every program of depth <=2; plus variables evaluated per item (in Only conditions and object fields, through a second variable) and one parsed engine evaluated on every ordered pair/triple of documents (30 hand-written programs with Go closures as reference); plus the comparison table: every operator x every constant of a 36-operand set (signed, leading dot/zero/plus, exponent, numeric-looking text, both cases, empty; quoted and as number token) against all 36 operands as values; each rendered to text and evaluated by the real engine on 6 documents, and by the reference interpreter (Go closures calling the gedcom API directly: map over lists in order, prefix/suffix, len, order-preserving filter with the documented comparison rule, concatenation, gedcom.NodesWithTagPath, substitution for variables). " +
+		Rule: "programs: every well-typed query of pipeline depth <=d (3 quick, 4 thorough) from a typed grammar over {Doc, Indi, Fam, role nodes, Name, Date, Node, string, number, bool, object} x list nesting: 34 accessors from a hand-written signature table, First/Last(0..4), Length, NodesWithTagPath (7 tag paths incl. a user-defined tag), Only over 7 accessor chains x 6 operators x numeric/text/mixed constants, 3 object constructions; plus variable forms (definition, a variable defined through another variable, unused definition) and Combine(V,V) / Combine(V,V)|Length on every program of depth <=2; plus variables evaluated per item (in Only conditions and object fields, through a second variable) and one parsed engine evaluated on every ordered pair/triple of documents (30 hand-written programs with Go closures as reference); plus the comparison table: every operator x every constant of a 36-operand set (signed, leading dot/zero/plus, exponent, numeric-looking text, both cases, empty; quoted and as number token) against all 36 operands as values; each rendered to text and evaluated by the real engine on 6 documents, and by the reference interpreter (Go closures calling the gedcom API directly: map over lists in order, prefix/suffix, len, order-preserving filter with the documented comparison rule, concatenation, gedcom.NodesWithTagPath, substitution for variables). " +
 			"Non-trivial = (program with >=1 step, document) pairs where both sides produce a value and agree; distinct by (query text, document).",
 		Assumptions: []string{
 			"results are compared after JSON normalisation (what the json formatter prints); an empty list and null are the same 'nothing'",
